@@ -596,8 +596,7 @@ ELIM = {
 }
 
 
-def _elim(repo, col):
-    R = "R-C01-elim"
+def _elim(repo, col, R="R-C01-elim"):
     for fname, spec in ELIM.items():
         fi = repo.func(SV, fname)
         ev = _arr_eval(repo)
@@ -1269,6 +1268,18 @@ def _vectorfield(repo, col, R="R-C01-explicit"):
                     dirn = "lo" if src_gt else "hi"
                 cond_ok = c2c is not None and dirn == which and T.find(g, lambda x: x.op == "param" and x.name == "axial_conductances") is not None
                 good = good and cond_ok
+                # the per-edge conductances (listed branch after branch) become one row per branch: reshape(g, (nbranches, -1)) in C
+                # order, nothing else -- `(-1, nbranches).T` interleaves the branches
+                rs_ = g
+                shape_ok = rs_.op == "mcall" and rs_.name == "reshape" and rs_.kw.get("order") is None
+                if shape_ok:
+                    shp = rs_.args[2] if (rs_.args[0].op == "free" and len(rs_.args) > 2) else (rs_.args[1] if len(rs_.args) > 1 else None)
+                    m1_ = lambda z: (z.op == "const" and z.name == -1) or (z.op == "unary" and z.name == "USub" and z.args[0].op == "const" and z.args[0].name == 1)
+                    shape_ok = shp is not None and shp.op == "tuple" and len(shp.args) == 2 and shp.args[0].op == "param" and \
+                        shp.args[0].name == "nbranches" and m1_(shp.args[1])
+                col.check(shape_ok, R, fi, f"axial part ({which}): the conductances are laid out one row per branch", "reshape(g, (nbranches, -1))",
+                          f"the conductances multiply the voltage differences as `{g.short(90)}`: the edges are listed branch after branch, so "
+                          f"only a C-order reshape to (nbranches, -1) puts the edges of branch b into row b", node=fi.node)
                 detail = f"(v[{nb}] - v[{own}]) * g, g selected by {sel.short(50) if sel is not None else None} within {c2c.short(30) if c2c is not None else None}"
         seen[which] = good
         col.check(good, R, fi, f"axial part: compartments {'with a right' if which == 'lo' else 'with a left'} neighbour receive g * (v_neighbour - v_self)",
@@ -1657,12 +1668,24 @@ def _levels(repo, col, R="R-C01-levels"):
         return None
 
     def _range_of(t_):
-        """(lo, hi) of list(range(lo, hi)), possibly sliced [:-1] / [1:]"""
+        """(lo, hi) of list(range(lo, hi)) / np.asarray(range(lo, hi)) / np.arange(lo, hi), possibly sliced [:-1] / [1:] or shifted
+        by a constant (`r + 1`)"""
         if t_.op == "call" and t_.name == "list" and len(t_.args) == 1:
             return _range_of(t_.args[0])
-        if t_.op == "call" and t_.name == "range":
-            a_ = [_tr(x, _leaf) for x in t_.args]
+        if t_.op == "mcall" and t_.name in ("asarray", "array") and len(t_.args) >= 2 and t_.args[0].op == "free":
+            return _range_of(t_.args[1])
+        if t_.op == "mcall" and t_.name == "astype" and t_.args:
+            return _range_of(t_.args[0])
+        if (t_.op == "call" and t_.name == "range") or (t_.op == "mcall" and t_.name == "arange" and t_.args and t_.args[0].op == "free"):
+            ra = t_.args if t_.op == "call" else t_.args[1:]
+            a_ = [_tr(x, _leaf) for x in ra]
             return (ZERO, a_[0]) if len(a_) == 1 else (a_[0], a_[1])
+        if t_.op == "binop" and t_.name in ("+", "-") and t_.args[1].op == "const" and isinstance(t_.args[1].name, int):
+            base = _range_of(t_.args[0])
+            if base is not None:
+                k_ = Rat.const(t_.args[1].name if t_.name == "+" else -t_.args[1].name)
+                return (base[0] + k_, base[1] + k_)
+            return None
         if t_.op == "sub" and t_.args[1].op == "slice":
             base = _range_of(t_.args[0])
             lo, hi, st_ = t_.args[1].args
@@ -1679,10 +1702,30 @@ def _levels(repo, col, R="R-C01-levels"):
     for cls in ("Branch", "Cell"):
         fi = repo.method(cls, "_init_morph_jax_spsolve")
         exc = idxm.expander(repo, fi)
+        def two_parts(t_):
+            """the two per-branch pieces of a source / sink column: `A + B` (lists), or `np.concatenate(parts)` where `parts` is a
+            local list that the loop over the branches extends by `[A, B]`"""
+            if t_.op == "binop" and t_.name == "+":
+                return [t_.args[0], t_.args[1]]
+            if t_.op == "mcall" and t_.name in ("concatenate", "hstack") and len(t_.args) >= 2:
+                ext = [s_ for s_ in exc.stores if s_.kind == "aug" and s_.value is not None and s_.value.op == "list" and len(s_.value.args) == 2 and
+                       any(g.op == "loop" for g in s_.guards) and isinstance(s_.node, ast.AST) and
+                       T.find(t_.args[1], lambda y: y.op == "list" and y.key() == s_.value.key()) is not None]
+                if len(ext) == 1:
+                    return list(ext[0].value.args)
+            return None
+        # the type-0 block: the dictionary with a source and a sink column (and no branch-point type) whose columns are two ranges each
         dterm = None
         for n in ast.walk(fi.node):
-            if isinstance(n, ast.Dict) and [k.value for k in n.keys if isinstance(k, ast.Constant)][:2] == ["source", "sink"]:
-                dterm = (n, exc.term(n.values[0]), exc.term(n.values[1]))
+            if isinstance(n, ast.Dict):
+                ks = [k.value for k in n.keys if isinstance(k, ast.Constant)]
+                if "source" in ks and "sink" in ks:
+                    tv = n.values[ks.index("type")] if "type" in ks else None
+                    if tv is not None and not (isinstance(tv, ast.Constant) and tv.value == 0):
+                        continue
+                    cand_ = (n, exc.term(n.values[ks.index("source")]), exc.term(n.values[ks.index("sink")]))
+                    if dterm is None and two_parts(cand_[1]) is not None and two_parts(cand_[2]) is not None:
+                        dterm = cand_
         if dterm is None:
             col.unk(R, fi, f"{cls}: within-branch edges", "edge dictionary not found", node=fi.node)
             continue
@@ -1690,9 +1733,10 @@ def _levels(repo, col, R="R-C01-levels"):
         try:
             halves = []
             for t_ in (so_t, si_t):
-                if not (t_.op == "binop" and t_.name == "+"):
+                pr = two_parts(t_)
+                if pr is None:
                     raise Und("source/sink is not a concatenation of two ranges")
-                h = [_range_of(t_.args[0]), _range_of(t_.args[1])]
+                h = [_range_of(pr[0]), _range_of(pr[1])]
                 if None in h:
                     raise Und(f"range not recognised in {t_.short(60)}")
                 halves.append(h)
